@@ -3,6 +3,12 @@
 
   tools/kf.py fix <property> <signature-regex> <commit>   mark matching open entries as fixed:<commit>
   tools/kf.py list [property]                              show entries
+  tools/kf.py add < entry.json                             append one entry (or a list of entries) read from stdin:
+                                                           {"property","signature","text","witness"} (status open);
+                                                           an open entry with the same property+signature is replaced
+  tools/kf.py drop <property> <signature-regex>            remove matching OPEN entries (false alarms are never kept)
+Every command holds an exclusive lock (known_findings.json.lock) for its read-modify-write, so several builders can
+use it at the same time; never edit known_findings.json by hand while others are working.
 The "fixed" list of strings ("fixed: property=<id> <commit> <what failed>") is regenerated from the entries
 with status fixed:<commit> plus the hand-written records of fixes that pre-date their check ("fixed_before_check").
 """
@@ -27,6 +33,9 @@ def save(d):
     os.replace(tmp, P)
 
 def main():
+    import fcntl
+    lock = open(P + ".lock", "w")
+    fcntl.flock(lock, fcntl.LOCK_EX)
     cmd = sys.argv[1]
     d = load()
     if cmd == "fix":
@@ -39,6 +48,21 @@ def main():
                 print("fixed", prop, e["signature"], commit)
         if not n:
             print("NO MATCH", prop, rx)
+        save(d)
+    elif cmd == "add":
+        new = json.load(sys.stdin)
+        for e in (new if isinstance(new, list) else [new]):
+            assert {"property", "signature", "text"} <= set(e), "entry needs property, signature, text"
+            e.setdefault("status", "open")
+            d["findings"] = [x for x in d["findings"] if not (x["property"] == e["property"] and x["signature"] == e["signature"] and x.get("status") == "open")]
+            d["findings"].append(e)
+            print("added", e["property"], e["signature"])
+        save(d)
+    elif cmd == "drop":
+        prop, rx = sys.argv[2:4]
+        keep = [x for x in d["findings"] if not (x["property"] == prop and x.get("status") == "open" and re.search(rx, x["signature"]))]
+        print("dropped", len(d["findings"]) - len(keep))
+        d["findings"] = keep
         save(d)
     elif cmd == "list":
         for e in d["findings"]:
